@@ -222,6 +222,14 @@ def lemmas_on_path(eng, g, lemmas):
         for a, b in zip(fin, fin[1:]):
             if not eng.valid(a.e < b.e):
                 bad.append(('MONO', 'timestamps not strictly increasing although delays are polarity independent')); break
+    if 'HAZ' in lemmas:
+        for vals in haz_tuples(g.inits, g.Ks):
+            prob = haz_claim(g.name, vals, init, len(fin))
+            if prob: bad.append(('HAZ', f'abstract inputs {"".join(vals)}: {prob}')); break
+    if 'TWINMONO' in lemmas:
+        for a, b in zip(fin, fin[1:]):
+            if not eng.valid(a.e < b.e):
+                bad.append(('TWINMONO', 'twin')); break
     if 'WSA' in lemmas:
         rises = sum(1 for j in range(len(fin)) if (init + j) & 1 == 0)
         falls = len(fin) - rises
@@ -252,6 +260,46 @@ def lemmas_on_path(eng, g, lemmas):
             if p2 or init2 != init or len(fin2) != len(fin) or termc2 != termc or not all(eng.valid(b.e == a.e * scv) for a, b in zip(fin, fin2)):
                 bad.append(('SCALE', f'scaling times and delays by {sc} does not scale the output waveform likewise')); break
     return bad
+
+
+_O8 = {}
+MVCH = {'0': 0, '1': 3, 'R': 5, 'F': 6, 'P': 4, 'N': 7}
+
+
+def out8(name, vals):
+    """8-valued result of the real LogicSim(m=8) for a one-gate circuit and abstract input values"""
+    key = (name, tuple(vals))
+    if key not in _O8:
+        from kyupy import logic
+        from kyupy.logic_sim import LogicSim
+        from . import netlist
+        ar = len(vals)
+        nl = netlist.NL('one', [(f'i{j}', 'in') for j in range(ar)] + [('z', 'out')], [('g', name, ['z'], [f'i{j}' for j in range(ar)])])
+        c = netlist.build(nl, 'verilog')
+        s = LogicSim(c, 1, m=8)
+        mv = np.full((s.s_len, 1), logic.UNASSIGNED, dtype=np.uint8)
+        for j, v in enumerate(vals): mv[j, 0] = MVCH[v]
+        s.s[0] = logic.mv_to_bp(mv); s.s_to_c(); s.c_prop(); s.c_to_s()
+        _O8[key] = int(logic.bp_to_mv(s.s[1])[ar, 0])
+    return _O8[key]
+
+
+def haz_tuples(inits, Ks):
+    """abstract values in {0,1,R,F,P,N} each input waveform (initial value, number of transitions) conforms to"""
+    per = []
+    for ini, k in zip(inits, Ks):
+        if k == 0: per.append(['1', 'N'] if ini else ['0', 'P'])
+        elif k % 2: per.append(['F'] if ini else ['R'])
+        else: per.append(['N'] if ini else ['P'])
+    return list(itertools.product(*per))
+
+
+def haz_claim(name, vals, init, nfin):
+    o8 = out8(name, vals)
+    if o8 in (1, 2): return f'8-valued simulation yields unknown ({o8}) for known inputs'
+    if init != (o8 >> 1) & 1 or (init + nfin) & 1 != o8 & 1: return f'8-valued result {o8} but waveform goes {init} -> {(init + nfin) & 1}'
+    if o8 in (0, 3) and nfin: return f'8-valued result is the hazard-free constant {o8 & 1} but the waveform has {nfin} transitions'
+    return None
 
 
 # ------------------------------------------------------------------------------------------- lemma evaluation (concrete replay)
@@ -312,6 +360,10 @@ def concrete_lemma(data):
     if lemma == 'WSA':
         rises = sum(1 for j in range(len(fin)) if (init + j) & 1 == 0)
         if (nr, nf) != (rises, len(fin) - rises): return f'returned counts {(nr, nf)} but waveform has {(rises, len(fin) - rises)}'
+    if lemma == 'HAZ':
+        for vals in haz_tuples(inits, Ks):
+            prob = haz_claim(name, vals, init, len(fin))
+            if prob: return f'abstract inputs {"".join(vals)}: {prob} (transitions at {fin})'
     if lemma == 'OVL':
         if any(Fraction(t).limit_denominator(10) == OVL for t in terms) and term != 'ovl': return 'operand overflow marker not propagated'
         g2, cbuf2, d2 = concrete_stimulus(name, Ks, inits, 64, terms, times, delays)
@@ -358,12 +410,13 @@ def kernel_job(job):
             bad = [('WF', f'_wave_eval raised {type(e).__name__}: {e}')]
             g.w = None
         else:
+            mdl0 = grid_model(eng, g)          # before the product-run lemmas add their constraints
             bad = lemmas_on_path(eng, g, lemmas)
         rep.counts['obligations'] += len(lemmas)
         if not bad:
             rep.counts['discharged'] += len(lemmas)
             # concolic model validation: the same path on real float32 arrays
-            mdl = grid_model(eng, g)
+            mdl = mdl0
             if mdl is not None:
                 times, delays = model_stimulus(g, mdl)
                 gc, cbuf, d = concrete_stimulus(name, Ks, inits, cap, [float(t) for t in g.terms], times, delays)
@@ -395,6 +448,9 @@ def kernel_job(job):
     rep.counts['branches'] += eng.nbranches
     rep.counts['queries_engine'] += eng.nchecks
     rep.solver_s += eng.tsolve
+    if 'TWINMONO' in found:
+        rep.counts['twin_refuted'] += 1
+        del found['TWINMONO']
     for lemma, (data, detail) in found.items():
         prob = concrete_lemma(data)
         if prob: rep.violation(f'lemma={lemma}/{name}', f'{name} inputs K={list(Ks)} init={list(inits)} cap={cap}: {detail}; replay: {prob}', data)
